@@ -3,8 +3,8 @@ package main
 
 import (
 	"bytes"
-	"errors"
 	"fmt"
+	"io"
 	"reflect"
 	"strings"
 	"time"
@@ -14,6 +14,7 @@ import (
 
 	"verif/gen/gotypes"
 	"verif/gen/nbtgen"
+	"verif/inject"
 	"verif/ref/refnbt"
 	"verif/vm"
 )
@@ -25,12 +26,39 @@ type input struct {
 	network bool
 	origin  string // how it was produced, e.g. "prefix", "len=-1@listlen"
 	prior   []byte // a well-formed document the "typed-reused" entry decodes into the receiver first
+	h       uint64 // hash of bytes and format flag (set by check); picks the kind of source the bytes are read from
+}
+
+// The decoders are handed io.Readers of four kinds, chosen by the hash of the input (so every prefix, mutation and
+// truncation of a document meets all of them over the run): a bytes.Reader (an io.ByteReader, used as it is), a
+// plain io.Reader (the decoder wraps it to read single bytes), a plain reader that delivers 1 and 3 bytes at a
+// time, and one that delivers 2, 1 and 5 bytes at a time and ends in an I/O error instead of io.EOF.
+var srcNames = [4]string{"bytes-reader", "plain-reader", "short-reads", "short-reads-ending-in-io-error"}
+
+// five inputs in eight come from the bytes.Reader (the other kinds cost the decoder an allocation per single byte)
+func (in *input) srcKind() int {
+	if k := int(in.h>>3) & 7; k < 4 {
+		return k
+	}
+	return 0
+}
+
+func source(in *input) io.Reader {
+	switch in.srcKind() {
+	case 1:
+		return &inject.PlainReader{R: bytes.NewReader(in.b)}
+	case 2:
+		return &inject.ChunkReader{B: in.b, Plan: []int{1, 3}}
+	case 3:
+		return &inject.ChunkReader{B: in.b, Plan: []int{2, 1, 5}, Err: inject.ErrInjected}
+	}
+	return bytes.NewReader(in.b)
 }
 
 func (in *input) wit(entry string) func() any {
 	return func() any {
-		m := map[string]any{"bytes": vm.Hex(in.b), "network": in.network, "origin": in.origin, "entry": entry}
-		if entry == "typed-reused" {
+		m := map[string]any{"bytes": vm.Hex(in.b), "network": in.network, "origin": in.origin, "entry": entry, "source": srcNames[in.srcKind()]}
+		if entry == "typed-reused" || entry == "hooks-reused" {
 			m["receiver_previously_decoded"] = vm.Hex(in.prior)
 		}
 		return m
@@ -116,7 +144,7 @@ type entry struct {
 }
 
 func dec(in *input) *nbt.Decoder {
-	d := nbt.NewDecoder(bytes.NewReader(in.b))
+	d := nbt.NewDecoder(source(in))
 	d.NetworkFormat(in.network)
 	return d
 }
@@ -176,21 +204,26 @@ var entries = []entry{
 		}
 		return err, 0
 	}},
+	// a target whose interface type has methods cannot hold any decoded value: an error, not a reflect panic. The three
+	// receivers are entries of their own: a wrong success of one of them on a cut-off document must not be hidden by
+	// the errors of the other two.
 	{"interface-with-methods", func(in *input, _ reflect.Type) (error, int) {
-		// a target whose interface type has methods cannot hold any decoded value: an error, not a reflect panic
 		var s struct {
 			V fmt.Stringer
 			E error
 		}
 		_, err := dec(in).Decode(&s)
+		return err, 0
+	}},
+	{"interface-with-methods/map", func(in *input, _ reflect.Type) (error, int) {
 		var m map[string]fmt.Stringer
-		_, err2 := dec(in).Decode(&m)
+		_, err := dec(in).Decode(&m)
+		return err, len(m)
+	}},
+	{"interface-with-methods/slice", func(in *input, _ reflect.Type) (error, int) {
 		var l []error
-		_, err3 := dec(in).Decode(&l)
-		if err == nil && err2 == nil && err3 == nil {
-			return nil, 0
-		}
-		return errors.Join(err, err2, err3), 0
+		_, err := dec(in).Decode(&l)
+		return err, len(l)
 	}},
 	{"raw", func(in *input, _ reflect.Type) (error, int) {
 		var m nbt.RawMessage
@@ -199,11 +232,13 @@ var entries = []entry{
 			return err, 0
 		}
 		_ = m.String()
+		// the captured value decoded again: these run the typed decoder on bytes that only the skipping reader has
+		// seen. What they return is looked at (rawFollowUp), not thrown away.
 		var v any
-		_ = m.Unmarshal(&v)
+		rawUnmarshalErr = m.Unmarshal(&v)
 		var mm map[string]any
-		_ = m.UnmarshalDisallowUnknownField(&mm)
-		return nil, 0
+		rawStrictErr = m.UnmarshalDisallowUnknownField(&mm)
+		return nil, countAny(v)
 	}},
 	{"stringified", func(in *input, _ reflect.Type) (error, int) {
 		var m nbt.StringifiedMessage
@@ -223,6 +258,9 @@ var entries = []entry{
 	}},
 }
 
+// what the "raw" entry saw after a successful capture (valid until the next call of the entry)
+var rawUnmarshalErr, rawStrictErr error
+
 func check(c *vm.Ctx, in *input, typed reflect.Type) {
 	if refnbt.MaxDeclaredLen(in.b, in.network) > 1<<20 || refnbt.MaxDeclaredLen(in.b, !in.network) > 1<<20 {
 		c.Cover("declared-length-above-2^20") // no longer skipped: decoders grow their buffers as data arrives
@@ -234,7 +272,10 @@ func check(c *vm.Ctx, in *input, typed reflect.Type) {
 	if in.network {
 		nt = 1
 	}
-	c.Eval(vm.Hash64(in.b, []byte{nt}), len(in.b) > 2) // one distinct hostile input
+	in.h = vm.Hash64(in.b, []byte{nt})
+	c.Eval(in.h, len(in.b) > 2) // one distinct hostile input
+	c.Cover("src." + srcNames[in.srcKind()])
+	var anyErr error
 	for _, e := range entries {
 		var err error
 		var nodes int
@@ -242,6 +283,14 @@ func check(c *vm.Ctx, in *input, typed reflect.Type) {
 			continue
 		}
 		c.Eval(0, false)
+		switch e.name {
+		case "any":
+			anyErr = err
+		case "raw":
+			if err == nil {
+				rawFollowUp(c, in, cl, anyErr)
+			}
+		}
 		if err == nil {
 			if mustFail(cl) {
 				c.Violation(e.name+"/success-on-"+cl.String()+"@"+kind, fmt.Sprintf("entry point %s reported success on input the reference classifies %s at %s (origin %s): %s", e.name, cl, kind, in.origin, vm.Hex(in.b)), in.wit(e.name)())
@@ -254,6 +303,9 @@ func check(c *vm.Ctx, in *input, typed reflect.Type) {
 		} else {
 			c.Cover("outcome.error." + e.name)
 		}
+	}
+	if in.h>>9&1 == 0 || len(in.b) <= 2 { // every other input (they come in families: every prefix of a document, ...)
+		handBuiltRaw(c, in, cl, kind)
 	}
 }
 
@@ -470,6 +522,89 @@ func bigElements(c *vm.Ctx, r *vm.Rand) {
 	}
 }
 
+// bigByteArrays: byte arrays longer than the first step of the growing read buffers (64 KiB for the typed decoder
+// and for dynbt), whole and cut inside the second and later growth steps - the reads that follow the first one have
+// error paths of their own, and an error ignored there turns a strict prefix into a success with a zero-filled tail.
+func bigByteArrays(c *vm.Ctx, r *vm.Rand) {
+	recv := []reflect.Type{reflect.TypeOf([]byte(nil)), reflect.TypeOf([]int8(nil)), reflect.TypeOf([]bool(nil)), reflect.TypeOf([70000]byte{}), reflect.TypeOf((*any)(nil)).Elem(),
+		reflect.TypeOf(nbt.RawMessage{}), reflect.TypeOf(dynbt.Value{}), reflect.TypeOf(nbt.StringifiedMessage("")), reflect.TypeOf([]int(nil))}
+	for _, n := range []int{70000, 200000} {
+		arr := &refnbt.Value{Tag: refnbt.ByteArray, Bytes: r.Bytes(n)}
+		// the array as a member between two others, as the whole document, and as the last element of a list: in the
+		// last two forms nothing follows the array, so only the array's own reads can notice that the input has ended
+		for _, form := range []string{"member", "root", "last-list-element"} {
+			var tree *refnbt.Value
+			switch form {
+			case "member":
+				tree = &refnbt.Value{Tag: refnbt.Compound, Comp: []refnbt.Entry{{Name: "a", V: refnbt.In(1)}, {Name: "b", V: arr}, {Name: "z", V: refnbt.St("after")}}}
+			case "root":
+				tree = arr
+			default:
+				tree = &refnbt.Value{Tag: refnbt.List, Elem: refnbt.ByteArray, List: []*refnbt.Value{{Tag: refnbt.ByteArray, Bytes: []byte{1, 2, 3}}, arr}}
+			}
+			for _, network := range []bool{true, false} {
+				doc := refnbt.Encode(tree, "", network)
+				start := len(doc) - n // first payload byte (root and list forms: the payload ends the document)
+				if form == "member" {
+					start = bytes.Index(doc, []byte{refnbt.ByteArray, 0, 1, 'b'}) + 8
+				}
+				cuts := []int{len(doc), len(doc) - 12, len(doc) - 1, start + 65535, start + 65536, start + 65536 + 10, start + 131072 - 1, start + 131072, start + 131072 + 10, start + n - 1}
+				for _, rt := range recv {
+					var target reflect.Type
+					switch form {
+					case "member":
+						target = reflect.StructOf([]reflect.StructField{
+							{Name: "A", Type: reflect.TypeOf(int32(0)), Tag: `nbt:"a"`},
+							{Name: "V", Type: rt, Tag: `nbt:"b"`},
+							{Name: "Z", Type: reflect.TypeOf(""), Tag: `nbt:"z"`},
+						})
+					case "root":
+						target = rt
+					default:
+						target = reflect.SliceOf(rt)
+						if rt.Kind() == reflect.Interface || rt == reflect.TypeOf(nbt.RawMessage{}) || rt == reflect.TypeOf(dynbt.Value{}) || rt == reflect.TypeOf(nbt.StringifiedMessage("")) {
+							target = rt // these take the whole list
+						}
+					}
+					done := map[int]bool{}
+					for ci, cut := range cuts {
+						if cut <= start || cut > len(doc) || (ci > 0 && cut == len(doc)) || done[cut] {
+							continue
+						}
+						done[cut] = true
+						for srcKind := 0; srcKind < 3; srcKind++ {
+							in := &input{b: doc[:cut], network: network, origin: fmt.Sprintf("big-byte-array %s n=%d cut=%d/%d", form, n, cut, len(doc)), h: uint64(srcKind) << 3}
+							name := "big/b/" + form + "/" + rt.String()
+							wit := func() any {
+								return map[string]any{"array_bytes": n, "array_is": form, "receiver": target.String(), "document_bytes": len(doc), "cut_at": cut, "payload_starts_at": start, "network": network, "source": srcNames[in.srcKind()],
+									"document": "refnbt.Encode of the tree named by array_is, array content irrelevant"}
+							}
+							c.Inflight(in.origin + " into " + target.String())
+							var err error
+							if c.Guard(name, wit, func() {
+								_, err = dec(in).Decode(reflect.New(target).Interface())
+							}) {
+								continue
+							}
+							c.Eval(vm.HashStr("bigb", form, rt.String(), fmt.Sprint(n, cut, network, srcKind)), true)
+							switch {
+							case err == nil && cut < len(doc):
+								c.Violation("big/success-on-truncated/b/"+form+"/"+rt.String(), fmt.Sprintf("a document cut at byte %d of %d, inside a %d-byte array (%s) whose payload starts at %d, decoded without error into %s", cut, len(doc), n, form, start, target), wit())
+							case err == nil:
+								c.Cover("big.byte-array-above-64KiB.whole." + form)
+							case cut < len(doc) && cut > start+65536:
+								c.Cover("big.byte-array-above-64KiB.cut-in-a-later-growth-step." + form)
+							default:
+								c.Cover("big.error")
+							}
+						}
+					}
+				}
+			}
+		}
+	}
+}
+
 func refElemSize(key string) int {
 	switch key {
 	case "b":
@@ -601,6 +736,13 @@ func run(c *vm.Ctx) {
 	if c.Shard == 1%c.NShards {
 		bigElements(c, c.Rand("big"))
 	}
+	if c.Shard == 2%c.NShards {
+		bigByteArrays(c, c.Rand("big-bytes"))
+	}
+	if c.Shard == 3%c.NShards {
+		depthBoundary(c)
+	}
+	hookedDocs(c, c.Rand("hooked"))
 	// random byte strings; all strings of length <= 2 (shard 0)
 	if c.Shard == 0 {
 		for a := 0; a < 256; a++ {
